@@ -160,6 +160,33 @@ def judge(ctx, J_, claims, options, now, leeway, tag="grid"):
         ctx.sample({**case, "spec": verdict, "library": o.etype or "returned"})
 
 
+def judge_sequence(ctx, J_, options, now, leeway, claim_sets):
+    """one registry object validates several claims sets: every outcome must be the one a fresh registry gives (spec is a pure function)"""
+    reg = call(J_.jwt.JWTClaimsRegistry, now=now, leeway=leeway, **copy.deepcopy(options))
+    if not reg.ok:
+        return
+    opts_before = repr(options)
+    for idx, claims in enumerate(claim_sets):
+        ctx.ev()
+        case = {"claims": claims, "options": options, "now": now, "leeway": leeway, "position_in_sequence": idx, "sequence": claim_sets}
+        try:
+            verdict, classes = spec(claims, options, now, leeway)
+        except Open as o:
+            ctx.open(str(o))
+            continue
+        o = call(reg.value.validate, copy.deepcopy(claims))
+        ctx.count("reuse_calls")
+        ctx.nontrivial(("reuse", case))
+        if verdict == "ACCEPT" and not o.ok:
+            ctx.violation(f"reused-registry:rejects-satisfying:{o.etype}", f"claims #{idx} validated by a registry that had validated other claims before: raised {o.exc!r}, spec accepts: {case!r}"[:500], case)
+        elif verdict == "REJECT" and o.ok:
+            ctx.violation("reused-registry:accepts-violating:" + "+".join(sorted(classes)), f"claims #{idx} accepted by a registry that had validated other claims before; spec says {sorted(classes)}: {case!r}"[:600], case)
+        elif verdict == "REJECT" and o.etype not in classes:
+            ctx.violation(f"reused-registry:wrong-class:{o.etype}", f"claims #{idx}: {o.etype}, spec {sorted(classes)}", case)
+    if repr(options) != opts_before:
+        ctx.violation("options-modified", "validate() modified the caller's options", {"options": options})
+
+
 NOWS = [0, 1, 10**9, 2**31, 2**40]
 LEEWAYS = [0, 1, 60, 10**6]
 VALUES = [None, True, False, 0, 1, -1, 7, 1.5, "", "a", "joe", "https://example.com", ["a"], ["a", "b"], [], {"a": 1}, {}, [1], 2**70]
@@ -255,6 +282,32 @@ def run_shard(ctx):
         if i % 500 == 0 and ctx.out_of_time():
             ctx.note("random part stopped by budget")
             break
+    # ---- one registry object, several validations (present-then-missing, valid-then-expired, ...)
+    for _ in range(150 if ctx.tier == "quick" else 5000):
+        now = rng.choice(NOWS[1:])
+        lw = rng.choice(LEEWAYS)
+        names = rng.sample(["iss", "sub", "aud", "jti", "x", "exp", "nbf"], rng.randrange(1, 4))
+        options = {}
+        for nm in names:
+            opt = {"essential": rng.random() < 0.7}
+            if rng.random() < 0.4 and nm not in ("exp", "nbf"):
+                opt["value"] = rng.choice(["a", "joe", 7])
+            if rng.random() < 0.3 and nm not in ("exp", "nbf"):
+                opt["values"] = ["a", "b", "joe"]
+            options[nm] = opt
+        seq = []
+        for _k in range(rng.randrange(2, 6)):
+            c = {}
+            for nm in names + ["other"]:
+                r = rng.random()
+                if r < 0.25:
+                    continue
+                if nm in ("exp", "nbf"):
+                    c[nm] = now + rng.choice([-10**7, -5, 5, 10**7])
+                else:
+                    c[nm] = copy.deepcopy(rng.choice([None, "a", "joe", "zzz", "", ["a"], 7]))
+            seq.append(c)
+        judge_sequence(ctx, j, options, now, lw, seq)
     # ---- now=None uses the current time (fake clock through the module's own `time` name)
     import joserfc.rfc7519.registry as regmod
 
@@ -293,7 +346,7 @@ def run_shard(ctx):
         regmod.time = real
 
 
-REQUIRE = [("validate_calls", 5000, "validate() monitor"), ("spec_accept", 500, "accepting cases"), ("spec_reject", 500, "rejecting cases"),
+REQUIRE = [("reuse_calls", 1000, "validations on a reused registry object"), ("validate_calls", 5000, "validate() monitor"), ("spec_accept", 500, "accepting cases"), ("spec_reject", 500, "rejecting cases"),
            ("clock_cases", 100, "fake-clock cases")]
 
 
